@@ -88,6 +88,8 @@ func C18(c *Ctx) {
 	r.Rule("R18.7", batchedMarkText)
 	c.batchedMarks("R18.7")
 	c.c18CommitNonce()
+	r.Rule("R18.8", "the commit nonce only moves forward: in processCommitTransactions the nonce handed on for an account (entry of the map given to updateCommittedNonce, or a direct setCommitNonce) is computed from a pool entry reported as committed only behind the comparison commit nonce (getCommitNonce of that account) < new nonce; reports can arrive split and out of order, and without the comparison a later report of lower nonces moves the commit nonce back - the already committed nonces are admitted and batched again.")
+	c.c18CommitForward()
 	r.NotDecided = append(r.NotDecided, "history-dependent consistency of the indices over arrival/commit interleavings; restart reload of nonces; the unbounded batch when the ready counter is 0 while ready transactions exist (reported as information)")
 
 	pt := c.fn("R18.1", mpPrefix+"ProcessTransactions")
@@ -564,4 +566,69 @@ func (c *Ctx) batchedMarks(rule string) {
 		}
 	}
 	r.Floor(rule, "deletes from batchedTxs", n, 1)
+}
+
+// c18CommitForward: R18.8.
+func (c *Ctx) c18CommitForward() {
+	r := c.R
+	fn := c.fn("R18.8", mpPrefix+"processCommitTransactions")
+	if fn == nil {
+		return
+	}
+	n := 0
+	for _, rf := range c.regionOf(fn, 1) {
+		f := rf.fn
+		isCommitRead := func(v ssa.Value) bool {
+			return core.Mentions(v, func(w ssa.Value) bool {
+				cc, ok := w.(*ssa.Call)
+				return ok && strings.HasSuffix(core.CalleeName(cc), "nonceCache).getCommitNonce")
+			})
+		}
+		isNew := func(v ssa.Value) bool {
+			// nonce + 1 of a pool entry
+			return core.Mentions(v, func(w ssa.Value) bool {
+				bo, ok := w.(*ssa.BinOp)
+				if !ok || bo.Op != token.ADD {
+					return false
+				}
+				one, ok := core.ConstInt(bo.Y)
+				_, fld, _, okF := core.FieldOf(bo.X)
+				return ok && one == 1 && okF && fld == "nonce"
+			})
+		}
+		fwd := condEdges(f, func(fc core.Fact, ifi *ssa.If) (bool, int) {
+			bo, ok := ifi.Cond.(*ssa.BinOp)
+			if !ok {
+				return false, 0
+			}
+			switch {
+			case (bo.Op == token.LSS) && isCommitRead(bo.X) && isNew(bo.Y):
+				return true, 0
+			case (bo.Op == token.GEQ) && isCommitRead(bo.X) && isNew(bo.Y):
+				return true, 1
+			case (bo.Op == token.GTR) && isNew(bo.X) && isCommitRead(bo.Y):
+				return true, 0
+			case (bo.Op == token.LEQ) && isNew(bo.X) && isCommitRead(bo.Y):
+				return true, 1
+			}
+			return false, 0
+		})
+		isAdvance := func(in ssa.Instruction) bool {
+			switch x := in.(type) {
+			case *ssa.MapUpdate:
+				return strings.HasSuffix(x.Map.Type().String(), "map[string]uint64") && isNew(x.Value)
+			case ssa.CallInstruction:
+				if strings.HasSuffix(core.CalleeName(x), "nonceCache).setCommitNonce") {
+					args := x.Common().Args
+					return len(args) > 0 && isNew(args[len(args)-1])
+				}
+			}
+			return false
+		}
+		if len(sites(f, isAdvance)) == 0 {
+			continue
+		}
+		n += c.behindEdges("R18.8", shortFn(f), f, fwd, isAdvance, "commit nonce < new nonce", "advance of the commit nonce")
+	}
+	r.Floor("R18.8", "commit-nonce advances computed from committed pool entries", n, 1)
 }
